@@ -169,7 +169,7 @@ def gen_case(pyrng, present, nmax=12, force=None):
         else:
             v = g.normal(size=n) + (1j * g.normal(size=n) if cplx else 0)
             if start == "scaled":
-                v = v * float(g.choice([1e3, 1e-3, 7.0, 1e-30, 1e-20, 1e-12, 1e-11, 1e-9, 1e-6, 1e6, 1e12, 1e20, 1e30]))      # start-vector norms from 1e-30 to 1e30
+                v = v * float(g.choice([1e3, 1e-3, 7.0, 1e-30, 1e-20, 1e-12, 1e-11, 1e-9, 1e-6, 1e6, 1e12, 1e20, 1e30, 1e-150, 1e-155, 1e-160]))      # start-vector norms from 1e-30 to 1e30, and near the underflow of the squared norm
             grades.append(distinct)
         vs.append(v if cplx else np.real(v))
     c["start"] = start
@@ -281,6 +281,28 @@ def oracle_graded(c, obs):
     if len(w) == n and np.abs(np.sort(w) - lam).max() > 1e-8 * top:
         bad.append(f"lanczos_eigs with max_iters >= n does not return the spectrum of the graded operator (error {np.abs(np.sort(w) - lam).max() / top:.3g} of the largest eigenvalue)")
     return bad
+
+
+def gen_narrow_start(pyrng, nmax=10):
+    """explicit start vectors of a NARROWER dtype than the operator (float32 / complex64 on float64 / complex128), and start norms
+    near the underflow of the squared norm (float32 1e-19 .. 1e-22).  The buffer is in the promoted dtype: every basis column must
+    be a unit vector to a few eps of THAT dtype, orthonormality / relation / T = Q^H A Q likewise; the direction of the first column
+    is only determined to the precision of the start's dtype.  Oracle only (the model computes in binary64 throughout)."""
+    g = np.random.default_rng(pyrng.getrandbits(64))
+    while True:
+        c = gen_case(pyrng, set(), nmax=nmax, force=dict(kind=str(g.choice(["dense", "psd"])), start="random", n=int(g.integers(2, nmax + 1))))
+        if c["batch"] == 0 and not in_avoided_region(c, set()):
+            break
+    opc = c["cplx"]
+    vc = bool(opc or g.random() < 0.4)
+    dt = np.complex64 if vc else np.float32
+    V = dec(c["v"])
+    V = (V if opc else (V.real + (1j * g.normal(size=V.shape) if vc else 0)))
+    V = V * float(g.choice([1.0, 1.0, 1.0, 1e-19, 1e-20, 1e-21, 1e-22]))
+    V = V.astype(dt).astype(np.complex128)                                  # exactly what the implementation receives
+    c.update(cplx=vc, op_cplx=opc, v_dtype=("complex64" if vc else "float32"), v=enc(V), dir_tol=1e-5, narrow=True,
+             tol=float(g.choice([1e-7, 1e-6, 1e-3])), entry=str(g.choice(["lanczos", "Lanczos()", "lanczos_eigs"])))
+    return c
 
 
 def gen_mixed_dtype(pyrng, nmax=10):
@@ -546,6 +568,8 @@ def build_op(c):
 def start_of(c):
     V = dec(c["v"])
     V = V if c["cplx"] else V.real
+    if c.get("v_dtype"):
+        V = V.astype(getattr(np, c["v_dtype"]))
     return V[0].copy() if c["batch"] == 0 else np.ascontiguousarray(V.T)
 
 
@@ -653,6 +677,7 @@ def oracle(c, obs, check_span=True):
         Q = dec(obs["Q"][b]).T if obs["Q"][b] else np.zeros((n, 0), dtype=complex)
         T = dec(obs["T"][b]) if obs["T"][b] else np.zeros((0, 0), dtype=complex)
         v = V[b]
+        v = v / np.abs(v).max()             # only the direction of the start vector matters; avoids under/overflow of squared norms here
         k = Q.shape[1]
         if not (np.all(np.isfinite(Q)) and np.all(np.isfinite(T))):
             bad.append(tag + "non-finite output"); continue
@@ -664,8 +689,13 @@ def oracle(c, obs, check_span=True):
             continue
         if np.abs(Q.conj().T @ Q - np.eye(k)).max() > 1e-8:
             bad.append(tag + "Q not orthonormal")
-        if np.abs(Q[:, 0] - v / np.linalg.norm(v)).max() > 1e-10:
+        vmax = np.abs(v).max()
+        vdir = (v / vmax) / np.linalg.norm(v / vmax)                       # scaled norm: no under/overflow of the squares
+        if np.abs(Q[:, 0] - vdir).max() > c.get("dir_tol", 1e-10):
             bad.append(tag + "first column != v/||v||")
+        # every returned column is a unit vector to the precision of the (promoted) buffer dtype, whatever the dtype / norm of the start
+        if np.abs(np.linalg.norm(Q, axis=0) - 1).max() > 1e-12:
+            bad.append(tag + f"columns are not unit vectors in the precision of the basis' dtype (max | ||q_j|| - 1 | = {np.abs(np.linalg.norm(Q, axis=0) - 1).max():.3g})")
         if np.abs(T.imag).max() > 1e-10 * scale:
             bad.append(tag + "T not real")
         if np.abs(T - T.T).max() > 0 or np.abs(np.triu(T, 2)).max() > 0:
